@@ -64,7 +64,8 @@ var $externalize = (v, t, makeWrapper) => {
             var keys = Array.from(v.keys());
             for (var i = 0; i < keys.length; i++) {
                 var entry = v.get(keys[i]);
-                m[$externalize(entry.k, t.key, makeWrapper)] = $externalize(entry.v, t.elem, makeWrapper);
+                // defineProperty, because plain assignment of the key "__proto__" invokes a setter.
+                Object.defineProperty(m, $externalize(entry.k, t.key, makeWrapper), { value: $externalize(entry.v, t.elem, makeWrapper), writable: true, enumerable: true, configurable: true });
             }
             return m;
         case $kindPtr:
